@@ -992,6 +992,233 @@ pub fn gen_c04(rng: &mut Prng, _thorough: bool, out: &mut Out) {
     }
 }
 
+
+// ------------------------------------------------------------------------------------------
+// Reference encoders (layouts written from the documented wire formats) and their mutations
+fn be32(s: &RScalar) -> Vec<u8> {
+    sc_be(s).to_vec()
+}
+fn le32(s: &RScalar) -> Vec<u8> {
+    let mut v = sc_be(s).to_vec();
+    v.reverse();
+    v
+}
+fn cat(parts: &[&[u8]]) -> Vec<u8> {
+    parts.iter().flat_map(|p| p.iter().copied()).collect()
+}
+
+/// (type name, encoding) of valid values of every generic data type, from known dlogs
+pub fn valid_encodings(rng: &mut Prng, g1: bool, per_type: usize) -> Vec<(&'static str, Vec<u8>)> {
+    let mut v: Vec<(&'static str, Vec<u8>)> = vec![];
+    for i in 0..per_type {
+        let sc = |rng: &mut Prng| match i { 0 => RScalar::ONE, 1 => -RScalar::ONE, 2 => RScalar::from(128u64), _ => rng.scalar() };
+        let pt = |rng: &mut Prng| if i == 3 { RScalar::ZERO } else { sc(rng) };
+        let tag = (i % 3) as u8;
+        let id = [1u8, 255, 2, 128, 77][i % 5];
+        let payload = match i { 0 => vec![], 1 => vec![0u8; 1], 2 => rng.bytes(32), 3 => rng.bytes(200), _ => rng.bytes(5 + i) };
+        let (a, b, c, d) = (pt(rng), pt(rng), sc(rng), sc(rng));
+        v.push(("pk", enc_pk(g1, &a)));
+        v.push(("mpk", enc_pk(g1, &b)));
+        v.push(("pop", enc_sig(g1, &a)));
+        v.push(("sk", be32(&c)));
+        v.push(("pcs", be32(&d)));
+        v.push(("pcc", be32(&c)));
+        for t in ["sig", "aggsig", "multisig", "commitment"] {
+            v.push((t, cat(&[&[tag], &enc_sig(g1, &a)])));
+        }
+        v.push(("pok", cat(&[&[tag], &enc_sig(g1, &a), &enc_sig(g1, &b)])));
+        let ts: u64 = [0, 1, 1_790_000_000_000, 1u64 << 63, u64::MAX][i % 5];
+        v.push(("pokts", cat(&[&[tag], &enc_sig(g1, &a), &enc_sig(g1, &b), &ts.to_le_bytes()])));
+        v.push(("skshare", cat(&[&[id], &le32(&c)])));
+        for t in ["pkshare", "sdshare", "egshare"] {
+            v.push((t, cat(&[&[id], &enc_pk(g1, &a)])));
+        }
+        v.push(("sigshare", cat(&[&[tag], &[id], &enc_sig(g1, &b)])));
+        v.push(("scct", cat(&[&enc_pk(g1, &a), &leb128(payload.len() as u128), &payload, &enc_sig(g1, &b), &[tag]])));
+        v.push(("scdk", enc_pk(g1, &a)));
+        v.push(("egdk", enc_pk(g1, &b)));
+        let v32 = rng.bytes(32);
+        v.push(("tlct", cat(&[&enc_pk(g1, &a), &v32, &leb128(payload.len() as u128), &payload, &[tag]])));
+        v.push(("egct", cat(&[&enc_pk(g1, &a), &enc_pk(g1, &b)])));
+        v.push(("egproof", cat(&[&enc_pk(g1, &a), &enc_pk(g1, &b), &be32(&c), &be32(&d), &be32(&sc(rng))])));
+        if g1 {
+            v.push(("skenum", cat(&[&[1 + (i % 2) as u8], &be32(&c)])));
+            v.push(("inner1", cat(&[&[id], &enc_g1(&a)])));
+            v.push(("inner2", cat(&[&[id], &enc_g2(&a)])));
+        }
+    }
+    v
+}
+
+pub fn gen_c15(rng: &mut Prng, thorough: bool, out: &mut Out) {
+    for g1 in [true, false] {
+        for (t, e) in valid_encodings(rng, g1, if thorough { 12 } else { 5 }) {
+            out.case(g1, &format!("bytes_rt w{} x{}", t, hx(&e)));
+        }
+        // scalar codecs
+        for s in edge_scalars() {
+            out.case(g1, &format!("sk_to_be s{}", hs(&s)));
+            out.case(g1, &format!("sk_to_le s{}", hs(&s)));
+            out.case(g1, &format!("sk_from_be x{}", hx(&be32(&s))));
+            out.case(g1, &format!("sk_from_le x{}", hx(&le32(&s))));
+            if g1 {
+                out.case(g1, &format!("skenum_from_be x01{}", hx(&be32(&s))));
+                out.case(g1, &format!("skenum_from_be x02{}", hx(&be32(&s))));
+            }
+        }
+    }
+}
+
+fn point_len(g1: bool, sig: bool) -> usize {
+    if g1 == sig { 48 } else { 96 }
+}
+
+pub fn gen_c16(rng: &mut Prng, thorough: bool, out: &mut Out) {
+    for g1 in [true, false] {
+        let bad_sig = crate::search_codec::codec_bad_points(rng, g1, if thorough { 6 } else { 2 });
+        let bad_pk = crate::search_codec::codec_bad_points(rng, !g1, if thorough { 6 } else { 2 });
+        for (t, e) in valid_encodings(rng, g1, if thorough { 6 } else { 3 }) {
+            let case = |out: &mut Out, b: &[u8]| out.case(g1, &format!("bytes_rt w{} x{}", t, hx(b)));
+            // truncations: every proper prefix (short types) or a spread
+            let step = if e.len() <= 120 || thorough { 1 } else { 7 };
+            let mut k = 0;
+            while k < e.len() {
+                case(out, &e[..k]);
+                k += step;
+            }
+            case(out, &e[..e.len() - 1]);
+            // extensions
+            for ext in [1usize, 2, 16] {
+                let mut x = e.clone();
+                x.extend(std::iter::repeat(0xa5u8).take(ext));
+                case(out, &x);
+            }
+            // invalid points spliced over every window that is a point position: try both lengths at every
+            // offset where the splice fits exactly before/after known separators (offsets 0, 1, 2 and the tail)
+            for (bad, plen) in [(&bad_sig, point_len(g1, true)), (&bad_pk, point_len(g1, false))] {
+                for off in [0usize, 1, 2, e.len().saturating_sub(plen), e.len().saturating_sub(plen + 1), e.len().saturating_sub(plen + 8), plen, plen + 1] {
+                    if off + plen > e.len() {
+                        continue;
+                    }
+                    for b in bad.iter() {
+                        let mut x = e.clone();
+                        x[off..off + plen].copy_from_slice(&b.bytes);
+                        case(out, &x);
+                    }
+                }
+            }
+            // tags and identifiers
+            if e.len() > 1 {
+                for tagb in [3u8, 0x7f, 0x80, 0xff] {
+                    let mut x = e.clone();
+                    x[0] = tagb;
+                    case(out, &x);
+                }
+                let mut x = vec![0x80u8, 0x00];
+                x.extend_from_slice(&e[1..]);
+                case(out, &x);
+            }
+        }
+        // scalars: zero, r, r+1, 2^255, all ones
+        let r_be = hex::decode("73eda753299d7d483339d80809a1d80553bda402fffe5bfeffffffff00000001").unwrap();
+        let mut r1 = r_be.clone();
+        r1[31] = 2;
+        for b in [vec![0u8; 32], r_be.clone(), r1, vec![0xffu8; 32], { let mut z = vec![0u8; 32]; z[0] = 0x80; z }] {
+            for t in ["sk", "pcs", "pcc"] {
+                out.case(g1, &format!("bytes_rt w{} x{}", t, hx(&b)));
+            }
+            out.case(g1, &format!("sk_from_be x{}", hx(&b)));
+            out.case(g1, &format!("sk_from_le x{}", hx(&b)));
+            let mut p = cat(&[&enc_pk(g1, &RScalar::ONE), &enc_pk(g1, &RScalar::ONE)]);
+            p.extend_from_slice(&b);
+            p.extend_from_slice(&be32(&RScalar::ONE));
+            p.extend_from_slice(&be32(&RScalar::ONE));
+            out.case(g1, &format!("bytes_rt wegproof x{}", hx(&p)));
+        }
+        // share containers with invalid payloads, used
+        let sk = rng.scalar();
+        let good1 = pt_share_tok(1, &enc_pk(g1, &sk));
+        for b in bad_pk.iter() {
+            let badsh = pt_share_tok(2, &b.bytes);
+            out.case(g1, &format!("pk_from_shares [ {} {} ]", good1, badsh));
+            out.case(g1, &format!("scdk_from_shares [ {} {} ]", good1, badsh));
+            out.case(g1, &format!("egdk_from_shares [ {} {} ]", good1, badsh));
+            let m = b"m".to_vec();
+            out.case(g1, &format!("pks_verify {} cbasic {} x{}", badsh, pt_share_tok(2, &enc_sig(g1, &sk)), hx(&m)));
+        }
+        for b in bad_sig.iter() {
+            let badsh = pt_share_tok(2, &b.bytes);
+            let g = pt_share_tok(1, &enc_sig(g1, &sk));
+            out.case(g1, &format!("sig_from_shares [ cbasic {} cbasic {} ]", g, badsh));
+            out.case(g1, &format!("pks_verify {} cpop {} x6d", pt_share_tok(2, &enc_pk(g1, &sk)), badsh));
+        }
+    }
+}
+
+pub fn gen_c17(rng: &mut Prng, thorough: bool, out: &mut Out) {
+    for g1 in [true, false] {
+        for (t, e) in valid_encodings(rng, g1, if thorough { 4 } else { 2 }) {
+            let case = |out: &mut Out, b: &[u8]| out.case(g1, &format!("bytes_rt w{} x{}", t, hx(b)));
+            case(out, &[]);
+            for _ in 0..(if thorough { 24 } else { 6 }) {
+                let mut x = e.clone();
+                let i = rng.below(x.len() as u64) as usize;
+                x[i] ^= 1 << rng.below(8);
+                case(out, &x);
+            }
+            for n in [1usize, 2, 33, 49, 97, 200] {
+                case(out, &rng.bytes(n));
+            }
+        }
+        // the 256 OR-values of the zero test, through both scalar entry points
+        for v in 0..=255u8 {
+            let mut b = vec![0u8; 32];
+            b[(v as usize * 7) % 32] = v;
+            if v % 3 == 0 {
+                b[(v as usize * 11 + 5) % 32] |= v & 0x55;
+            }
+            out.case(g1, &format!("sk_from_be x{}", hx(&b)));
+            if thorough || v % 4 == 0 || v == 0x80 {
+                out.case(g1, &format!("sk_from_le x{}", hx(&b)));
+                out.case(g1, &format!("bytes_rt wsk x{}", hx(&b)));
+            }
+        }
+        if g1 {
+            for b in [vec![], vec![1u8], vec![2u8], vec![0u8], vec![3u8; 33], { let mut x = vec![1u8]; x.extend(vec![0u8; 32]); x }] {
+                out.case(g1, &format!("skenum_from_be x{}", hx(&b)));
+                out.case(g1, &format!("bytes_rt wskenum x{}", hx(&b)));
+            }
+        }
+        // ciphertexts with degenerate payload sizes through the consuming calls
+        let sk = rng.scalar();
+        for n in [0usize, 1, 2, 31, 32, 33] {
+            let v = rng.bytes(n);
+            let ct = ct_tok(&rng.scalar(), &v, &rng.scalar(), (n % 3) as u8);
+            out.case(g1, &format!("scct_is_valid {}", ct));
+            out.case(g1, &format!("scct_decrypt {} s{}", ct, hs(&sk)));
+            out.case(g1, &format!("scdk_decrypt {} q{}", ct, hs(&rng.scalar())));
+            out.case(g1, &format!("tlct_decrypt q{} x{} x{} cbasic cbasic p{}", hs(&rng.scalar()), hx(&rng.bytes(32)), hx(&v), hs(&rng.scalar())));
+        }
+        // honest ciphertexts whose plaintext length prefix is corrupted to every one-byte value
+        let msg = rng.bytes(5);
+        let seed = rng.bytes(32);
+        let d = dst(g1, 0);
+        let (u, v, w) = sc_seal_ref(g1, &sk, &msg, &d, &seed);
+        for delta in [1u8, 0x7f, 0x80, 0xff, 0x20] {
+            let mut v2 = v.clone();
+            v2[0] ^= delta;
+            // recompute W so that the ciphertext is VALID and the corrupted prefix reaches the parser
+            let mut t = crate::refs::sc_enc_pk(g1, &u);
+            t.extend_from_slice(&v2);
+            let w2 = eta(&t, &d) * u;
+            let _ = w;
+            let ct = ct_tok(&u, &v2, &w2, 0);
+            out.case(g1, &format!("scct_is_valid {}", ct));
+            out.case(g1, &format!("scct_decrypt {} s{}", ct, hs(&sk)));
+        }
+    }
+}
+
 pub fn generate(prop: &str, thorough: bool, seed: u64) -> Out {
     let mut rng = Prng(seed ^ 0xB15F_u64.wrapping_mul(prop.bytes().fold(7u64, |a, b| a.wrapping_mul(131).wrapping_add(b as u64))));
     let mut out = Out::new();
@@ -1009,6 +1236,17 @@ pub fn generate(prop: &str, thorough: bool, seed: u64) -> Out {
         "C12" => gen_c12(&mut rng, thorough, &mut out),
         "C13" => gen_c13(&mut rng, thorough, &mut out),
         "C14" => gen_c14(&mut rng, thorough, &mut out),
+        "C15" => gen_c15(&mut rng, thorough, &mut out),
+        "C16" => gen_c16(&mut rng, thorough, &mut out),
+        "C17" => gen_c17(&mut rng, thorough, &mut out),
+        "C18" => {
+            // every own-protocol construction and every wire layout, byte for byte
+            gen_c11(&mut rng, false, &mut out);
+            gen_c13(&mut rng, false, &mut out);
+            gen_c14(&mut rng, thorough, &mut out);
+            gen_c10(&mut rng, false, &mut out);
+            gen_c15(&mut rng, thorough, &mut out);
+        }
         _ => {}
     }
     out
